@@ -7,7 +7,7 @@ clause -> observable -> oracle
   result labelled with the remaining axes in original order, attrs carried     -> dims, labels, attrs
   axis=None -> scalar over everything; tuple of dims -> reduction over all of them at once
   skipna=False: NaN anywhere in a slice -> NaN (median included); skipna=True: NaNs ignored
-        (all-NaN slice: NaN or the empty-reduction identity accepted)
+        (all-NaN slice: sum -> 0, prod -> 1 as np.nansum / np.nanprod; all / any identity or NaN; others NaN)
   percentile(a, q, axis): np.percentile per slice; list q -> leading '<axis>_percentile' axis labelled by q
 Where NumPy itself raises for the dtype (e.g. ptp on bool) the implementation may raise as well.
 """
@@ -23,7 +23,7 @@ RULE = ("product of (float/int/bool arrays 1-4D, every shape with sizes 1-3 [1-4
         "patterns none / one cell / one whole slice per axis / all) x 11 reductions + percentile x axis in {None, every "
         "position, every name, -1, every ordered pair/triple of names} x skipna; non-trivial = array has more than one cell")
 ASSUMPTIONS = ["np.<f> on a 1-D list of slice members is the oracle (named by the property); rtol 1e-12 for mean/var/std/sum/prod",
-               "all-NaN slices under skipna=True accept NaN or the reduction identity"]
+               "all-NaN slices under skipna=True: the empty reduction (identity for sum/prod as np.nansum/np.nanprod give; identity or NaN for all/any; NaN for the others)"]
 FUNCS = ["sum", "prod", "mean", "var", "std", "min", "max", "ptp", "all", "any", "median"]
 NAMES = ["x", "y", "z", "t"]
 KINDS = ["i", "O", "f", "i"]
@@ -121,10 +121,13 @@ def _np_reduce(f, members, skipna):
     if skipna and arr.dtype.kind == "f":
         keep = arr[~np.isnan(arr)]
         if keep.size == 0:
-            alts = [float("nan")]
+            # nothing left once the missing values are ignored: the empty reduction, i.e. the identity where one
+            # exists (sum 0, prod 1, all True, any False - what np.nansum / np.nanprod return), NaN otherwise
+            if f in ("sum", "prod"):
+                return [IDENT[f]]            # np.nansum / np.nanprod exist and define it
             if f in IDENT:
-                alts.append(IDENT[f])
-            return alts
+                return [IDENT[f], float("nan")]   # all / any: NumPy has no nan-variant, either reading accepted
+            return [float("nan")]
         arr = keep
     return [getattr(np, f)(arr)]
 
